@@ -74,6 +74,8 @@ pub struct Scn {
     /// the client's protocol only speaks HTTP/1.1 (as when ALPN settles on http/1.1): a request
     /// that asks for HTTP/2 gets a connection that cannot be shared
     pub h1_only_client: bool,
+    /// the pool is configured with continue_after_preemption = false
+    pub no_continue: bool,
 }
 
 impl Default for ChunkBody {
@@ -216,6 +218,17 @@ pub fn run_one(scn: &Scn, schedule: &[usize]) -> Execution<Outcome> {
             .without_tls()
             .with_body::<ChunkBody, Body>()
             .build_service()
+    } else if scn.no_continue {
+        let mut pc = hyperdriver::client::PoolConfig::default();
+        pc.continue_after_preemption = false;
+        hyperdriver::Client::builder()
+            .with_protocol(HttpConnectionBuilder::<ChunkBody>::default())
+            .with_transport(transport)
+            .with_pool(pc)
+            .without_timeout()
+            .without_tls()
+            .with_body::<ChunkBody, Body>()
+            .build_service()
     } else {
         hyperdriver::Client::builder()
             .with_protocol(HttpConnectionBuilder::<ChunkBody>::default())
@@ -337,7 +350,7 @@ fn r(id: u32, origin: char, h2: bool, post: bool, chunks: u8) -> ReqSpec {
 }
 
 pub fn scenarios(thorough: bool) -> Vec<Scn> {
-    let mk = |name: &str, prelude: Vec<ReqSpec>, concurrent: Vec<ReqSpec>, bufsize: usize, cancellable: bool| Scn { name: name.into(), prelude, concurrent, bufsize, cancellable, h1_only_client: false };
+    let mk = |name: &str, prelude: Vec<ReqSpec>, concurrent: Vec<ReqSpec>, bufsize: usize, cancellable: bool| Scn { name: name.into(), prelude, concurrent, bufsize, cancellable, h1_only_client: false, no_continue: false };
     let mut v = vec![
         mk("h1-2-concurrent", vec![], vec![r(1, 'a', false, true, 2), r(2, 'a', false, true, 1)], 1024, true),
         mk("h1-reuse-after-prelude", vec![r(9, 'a', false, true, 1)], vec![r(1, 'a', false, true, 2), r(2, 'a', false, false, 0)], 1024, true),
@@ -367,6 +380,9 @@ pub fn scenarios(thorough: bool) -> Vec<Scn> {
     // one's attempt is marked as multiplexed, the others wait for it, the connection that comes
     // back cannot be shared
     v.push(Scn { h1_only_client: true, ..mk("h2-requests-h1-only-protocol-2-concurrent", vec![], vec![r(1, 'a', true, true, 1), r(2, 'a', true, true, 1)], 1024, false) });
+    // HTTP/1.1 and HTTP/2 requests to one origin with abandoned attempts dropped (continue_after_preemption =
+    // false): a released HTTP/1.1 connection may pre-empt the owner of an HTTP/2 attempt others wait for
+    v.push(Scn { no_continue: true, ..mk("mixed-h1-two-h2-no-continue", vec![], vec![r(1, 'a', false, true, 1), r(2, 'a', true, true, 1), r(3, 'a', true, false, 0)], 1024, false) });
     if thorough {
         v.push(mk("h1-3-concurrent", vec![], vec![r(1, 'a', false, true, 1), r(2, 'a', false, true, 2), r(3, 'a', false, false, 0)], 1024, true));
         v.push(mk("h2-3-concurrent", vec![], vec![r(1, 'a', true, true, 1), r(2, 'a', true, true, 2), r(3, 'a', true, false, 0)], 1024, true));
@@ -410,7 +426,7 @@ pub fn run(args: &Args) -> i32 {
     let cap: u64 = if thorough { 3_000_000 } else { 60_000 };
     let results = crate::evidence::par_map(scns.len(), crate::evidence::n_threads(), |i| {
         let scn = &scns[i];
-        let b = if scn.concurrent.len() >= 3 || (!thorough && scn.bufsize < 64) { bound - 1 } else { bound };
+        let b = if (scn.concurrent.len() >= 3 && !scn.no_continue) || (!thorough && scn.bufsize < 64) { bound - 1 } else { bound };
         let mut traces: BTreeSet<String> = BTreeSet::new();
         let mut found: Vec<(String, String, Vec<usize>, Vec<String>)> = vec![];
         crate::evidence::watchdog::set_context(json!({"engine":"schedmc-c01","scenario":scn.name}));
@@ -457,6 +473,23 @@ pub fn run(args: &Args) -> i32 {
             }
             run.violation(format!("{sub} scenario={}", scn.name), format!("{msg}; scenario {} schedule {:?}", scn.name, sched), json!({"engine":"schedmc-c01","scenario":scn.name,"schedule":prefix}));
         }
+    }
+    // pool level of the last sentence ("a request that is not cancelled and whose connection the peer does not
+    // break completes successfully"): every history of three requests in which nothing fails, closes or is
+    // cancelled, on the real pool with scripted dials (explicit-state search, see poolmc)
+    {
+        std::panic::set_hook(Box::new(|_| {}));
+        let mut pool_run = Run::new("C01", args.tier, "model_checking");
+        let err = crate::poolmc::run_into(&mut pool_run, "C01", thorough);
+        let _ = std::panic::take_hook();
+        if let Some(m) = err {
+            machinery = Some(m);
+        }
+        run.cov("pool_level_no_spurious_failure", serde_json::Value::Object(std::mem::take(&mut pool_run.coverage)));
+        for vv in std::mem::take(&mut pool_run.violations) {
+            run.violation(vv.signature, vv.what, vv.replay);
+        }
+        let _ = pool_run; // never finished: it writes no evidence of its own
     }
     run.cov("evaluations", evaluations);
     run.cov("distinct_nontrivial", distinct);
